@@ -751,7 +751,7 @@ def run(ctx):
         if quick:
             stride = dict(obj=3, fn=2, graph2=2, graph2k=6, graph3=16, graph4=4).get(tag, 1)
         else:            # thorough: TLC still checks every state; the two largest families are replayed in part
-            stride = dict(obj=2, graph3=3).get(tag, 1)
+            stride = dict(obj=2, fn=2, graph3=6).get(tag, 1)
         if os.environ.get("VERIF_C15_ORACLE") == "units":
             validate_oracle(ctx, tree, cases, tag)
         if os.environ.get("VERIF_C15_ALL"):      # development aid: replay the whole generated domain of this tier
